@@ -239,6 +239,12 @@ RunResult run_plan_in_child(Engine &e, const std::string &plan, bool verbose, in
     return r;
 }
 
+RunResult run_plan_confirmed(Engine &e, const std::string &plan, bool verbose, int log_fd) {
+    RunResult r = run_plan_in_child(e, plan, verbose, log_fd);
+    if (r.status == 1 && e.confirm) e.confirm(e, plan, r);
+    return r;
+}
+
 // ---------------------------------------------------------------- known findings
 struct Known { std::string property, sig, text; };
 static std::vector<Known> load_known(const std::string &path) {
@@ -293,7 +299,7 @@ static std::string minimise(Engine &e, const std::string &plan, const std::strin
     auto test = [&](const std::vector<std::string> &cand) -> bool {
         if (reruns >= budget) return false;
         reruns++;
-        RunResult r = run_plan_in_child(e, join_lines(cand), false);
+        RunResult r = run_plan_confirmed(e, join_lines(cand));
         return r.status == 1 && r.sig == sig;
     };
     // ddmin on deletable lines
@@ -420,7 +426,7 @@ int driver_main(int argc, char **argv, Engine &e) {
             KV kv(split_lines(plan)[0]);
             if (kv.has("prop")) e.property = kv.str("prop");
         }
-        RunResult r = run_plan_in_child(e, plan, log, log ? 1 : -1);
+        RunResult r = run_plan_confirmed(e, plan, log, log ? 1 : -1);
         printf("RESULT status=%d digest=%016llx events=%llu sim_ns=%llu sig=%s\n", r.status, (unsigned long long)r.digest,
                (unsigned long long)r.events, (unsigned long long)r.sim_ns, r.sig.empty() ? "-" : r.sig.c_str());
         if (!r.detail.empty()) printf("DETAIL %s\n", r.detail.c_str());
@@ -443,7 +449,7 @@ int driver_main(int argc, char **argv, Engine &e) {
                 uint64_t mism = 0;
                 for (uint64_t i = w; i < runs; i += W) {
                     std::string plan = e.gen(e.property, seed, i, thorough);
-                    RunResult a = run_plan_in_child(e, plan, false), b = run_plan_in_child(e, plan, false);
+                    RunResult a = run_plan_confirmed(e, plan), b = run_plan_confirmed(e, plan);
                     if (a.digest != b.digest || a.sig != b.sig || a.status != b.status) {
                         mism++;
                         fprintf(stderr, "NONDETERMINISM idx=%llu %llx/%llx %s/%s\n", (unsigned long long)i,
@@ -491,7 +497,7 @@ int driver_main(int argc, char **argv, Engine &e) {
                 if (now_s() - t_start > wall_cap) break;
                 std::string plan = e.gen(e.property, seed, i, thorough);
                 double tr0 = now_s();
-                RunResult r = run_plan_in_child(e, plan, false);
+                RunResult r = run_plan_confirmed(e, plan);
                 {   // wall-clock per stratum (engines label runs with a "scen.<name>" counter)
                     uint64_t us = (uint64_t)((now_s() - tr0) * 1e6);
                     for (auto &c : r.counters)
@@ -499,7 +505,7 @@ int driver_main(int argc, char **argv, Engine &e) {
                 }
                 // determinism sample: every 50th run is executed a second time
                 if (i % 50 == 7 % 50) {
-                    RunResult r2 = run_plan_in_child(e, plan, false);
+                    RunResult r2 = run_plan_confirmed(e, plan);
                     r.counters["_det_checked"] = 1;
                     if (r2.digest != r.digest || r2.sig != r.sig || r2.status != r.status) r.counters["_det_mismatch"] = 1;
                 }
@@ -588,7 +594,7 @@ int driver_main(int argc, char **argv, Engine &e) {
         if (reported >= 8) { printf("note: further unlisted signature %s (not minimised)\n", sig.c_str()); if (exit_code == 0) exit_code = 1; continue; }
         std::string plan = e.gen(e.property, seed, sp.first, thorough);
         // gate: two more executions, same digest and signature
-        RunResult a = run_plan_in_child(e, plan, false), b = run_plan_in_child(e, plan, false);
+        RunResult a = run_plan_confirmed(e, plan), b = run_plan_confirmed(e, plan);
         if (a.status != 1 || b.status != 1 || a.sig != sig || b.sig != sig || a.digest != b.digest) {
             printf("HARNESS-NONDETERMINISM engine=%s prop=%s idx=%llu sig=%s second=%s/%s digests=%llx/%llx\n", e.name.c_str(),
                    e.property.c_str(), (unsigned long long)sp.first, sig.c_str(), a.sig.c_str(), b.sig.c_str(),
